@@ -84,6 +84,110 @@ def gen():
     print(len(allm), "mutants")
 
 
+C_FILES = ["writer.c", "reader.c", "block.c", "record.c", "iter.c", "merged.c", "pq.c", "stack.c", "tree.c", "basics.c", "strbuf.c"]
+
+
+def c_mutants_of(fn, lines):
+    out = []
+    in_comment = False
+    for i, line in enumerate(lines):
+        s = line.strip()
+        if "/*" in s and "*/" not in s:
+            in_comment = True
+            continue
+        if in_comment:
+            if "*/" in s:
+                in_comment = False
+            continue
+        if not s or s.startswith("#") or s.startswith("//") or s.startswith("/*") or s.startswith("*"):
+            continue
+        code = re.sub(r'"[^"]*"', lambda m: " " * len(m.group(0)), line.split("/*")[0])
+        for pat, rep in REL:
+            for m in re.finditer(pat, code):
+                new = line[:m.start()] + rep + line[m.end():]
+                out.append({"file": "c/" + fn, "line": i + 1, "op": "%s -> %s" % (m.group(0), rep), "old": line.rstrip("\n"), "new": new.rstrip("\n")})
+        if re.match(r"^\s*[\w\.\->\[\]\(\)\*&]+\(.*\);\s*$", code) and not re.match(r"^\s*(return|goto|abort|assert|exit)\b", s):
+            out.append({"file": "c/" + fn, "line": i + 1, "op": "delete statement", "old": line.rstrip("\n"), "new": re.match(r"^\s*", line).group(0) + ";"})
+        m = re.match(r"^(\s*)if \((.+)\) \{\s*$", code)
+        if m:
+            out.append({"file": "c/" + fn, "line": i + 1, "op": "negate condition", "old": line.rstrip("\n"), "new": "%sif (!(%s)) {" % (m.group(1), m.group(2))})
+            out.append({"file": "c/" + fn, "line": i + 1, "op": "condition -> false", "old": line.rstrip("\n"), "new": "%sif (0 && (%s)) {" % (m.group(1), m.group(2))})
+    return out
+
+
+def genc():
+    os.makedirs(OUT, exist_ok=True)
+    allm = []
+    for fn in C_FILES:
+        allm += c_mutants_of(fn, open(os.path.join(REPO, "c", fn)).readlines())
+    for i, m in enumerate(allm):
+        m["id"] = 100000 + i
+    json.dump(allm, open(os.path.join(OUT, "mutants_c.json"), "w"), indent=0)
+    print(len(allm), "C mutants")
+
+
+def run_one_c(m):
+    d = tempfile.mkdtemp(prefix="amc-", dir="/tmp")
+    res = dict(m)
+    try:
+        for fn in os.listdir(REPO):
+            p = os.path.join(REPO, fn)
+            if os.path.isfile(p) and (fn.endswith(".go") or fn == "go.mod"):
+                shutil.copy(p, os.path.join(d, fn))
+        shutil.copytree(os.path.join(REPO, "c"), os.path.join(d, "c"))
+        path = os.path.join(d, m["file"])
+        lines = open(path).readlines()
+        if lines[m["line"] - 1].rstrip("\n") != m["old"]:
+            res["status"] = "stale"
+            return res
+        lines[m["line"] - 1] = m["new"] + "\n"
+        open(path, "w").writelines(lines)
+        rc, out = sh(["gcc", "-I" + os.path.join(d, "c"), "-I" + os.path.join(d, "c", "include"), "-c", path, "-o", "/dev/null", "-Werror=implicit-function-declaration"], d)
+        if rc != 0:
+            res["status"] = "does-not-compile"
+            return res
+        os.makedirs("/tmp/mut-replays", exist_ok=True)
+        env = dict(ENV, VERIF_REPO=d, VERIF_NOEVIDENCE="1", VERIF_NO_REGRESS="1", VERIF_REPLAY_DIR="/tmp/mut-replays", VERIF_SHARD_TIMEOUT="400")
+        t0 = time.time()
+        rc, out = sh([os.path.join(VERIF, "run"), "C15", "quick"], VERIF, timeout=1500, env=env)
+        sig = [l.strip() for l in out.splitlines() if l.strip().startswith("sig=")][:1]
+        res["checks"] = {"C15": {"exit": rc, "sig": sig, "wall": round(time.time() - t0, 1)}}
+        res["status"] = {0: "survived", 1: "detected"}.get(rc, "inconclusive")
+        if rc == 1:
+            res["detected_by"] = "C15"
+        return res
+    finally:
+        shutil.rmtree(d, ignore_errors=True)
+
+
+def runc(n, workers):
+    from concurrent.futures import as_completed
+    allm = json.load(open(os.path.join(OUT, "mutants_c.json")))
+    donep = os.path.join(OUT, "results_c.jsonl")
+    done = set()
+    if os.path.exists(donep):
+        for l in open(donep):
+            try:
+                done.add(json.loads(l)["id"])
+            except Exception:
+                pass
+    todo = [m for m in allm if m["id"] not in done]
+    random.Random(4242).shuffle(todo)
+    todo = todo[:n]
+    print("running", len(todo), "C mutants with", workers, "workers", flush=True)
+    with ThreadPoolExecutor(max_workers=workers) as ex, open(donep, "a") as f:
+        futs = [ex.submit(run_one_c, m) for m in todo]
+        for fu in as_completed(futs):
+            try:
+                r = fu.result()
+            except Exception as e:
+                print("worker error:", repr(e), flush=True)
+                continue
+            f.write(json.dumps(r) + "\n")
+            f.flush()
+            print(r["id"], r["file"], r["line"], r["op"], "->", r["status"], flush=True)
+
+
 def sh(cmd, cwd, timeout=900, env=None):
     try:
         p = subprocess.run(cmd, cwd=cwd, env=env or ENV, stdout=subprocess.PIPE, stderr=subprocess.STDOUT, text=True, errors="replace", timeout=timeout)
@@ -208,6 +312,10 @@ if __name__ == "__main__":
         gen()
     elif a[0] == "run":
         run(int(a[1]) if len(a) > 1 else 100, int(a[2]) if len(a) > 2 else 6)
+    elif a[0] == "genc":
+        genc()
+    elif a[0] == "runc":
+        runc(int(a[1]) if len(a) > 1 else 100, int(a[2]) if len(a) > 2 else 6)
     elif a[0] == "recheck":
         # re-run survivors of the given files against one more check (e.g. after the mapping was extended)
         check, files = a[1], a[2:]
